@@ -12,6 +12,9 @@ var textAlphabet = [][]byte{
 	[]byte("é"), []byte("世"), []byte("😀"), []byte("\t"), []byte("-"),
 	// marker look-alikes: runes that share trailing bytes with a marker
 	[]byte("〺"), []byte("〹"), []byte("်"), []byte("္"), []byte("º"), []byte("¹"),
+	// the decoder's error value correctly encoded, a rune sharing the markers'
+	// first two bytes, non-printable but valid runes
+	[]byte("\uFFFD"), []byte("\u200b"), []byte("\u00a0"), []byte("\ufeff"),
 }
 
 // genText draws a valid-UTF-8 payload over the text alphabet, with markers
@@ -103,7 +106,9 @@ func genFloatS(rt *rapid.T, label string) string {
 	return floatPool[rapid.IntRange(0, len(floatPool)-1).Draw(rt, label+"_f")]
 }
 
-var intPool = []int64{0, 1, -1, 7, 10, 42, -42, 127, 128, 255, 256, 65, 0x2039, 0x203a, 1000000, -9223372036854775808, 9223372036854775807, 1114111, 55296}
+var intPool = []int64{0, 1, -1, 7, 10, 42, -42, 127, 128, 255, 256, 65, 0x2039, 0x203a, 1000000, -9223372036854775808, 9223372036854775807, 1114111, 55296,
+	// code points at the edges of Unicode classes (graphic but not printable, format, private use, unassigned, replacement)
+	0xA0, 0xAD, 0x7F, 0x85, 0x1680, 0x2000, 0x200B, 0x2028, 0x202F, 0x3000, 0xFEFF, 0xFFFD, 0x0378, 0xE000}
 
 func genInt(rt *rapid.T, label string) int64 {
 	if rapid.IntRange(0, 3).Draw(rt, label+"_ik") == 0 {
